@@ -179,8 +179,8 @@ def item_backend(case, run):
     fed = "(SL [%s])" % "; ".join("(SF %s)" % fhex(t) for t in run["fed"])
     model, exp = [], []
     if case["dflt"] == "Full":
-        model.append("(run_store None %s %s %s)" % (coq_Z(T), flist(run["fed"]), obs_term(owns)))
-        exp.append("(SL [SZ 0; %s])" % sv_times(run["stored"]))
+        model.append("(run_pipeline_full %s %s %s)" % (fl(case.get("rate", 1.0)), coq_Z(T), obs_term(owns)))
+        exp.append("(SL [%s; SL [SZ 0; %s]])" % (fed, sv_times(run["stored"])))
     else:
         model.append("(run_pipeline %s %s %s)" % (flist(case["dflt"]), coq_Z(T), obs_term(owns)))
         exp.append("(SL [%s; SL [SZ 0; %s]])" % (fed, sv_times(run["stored"])))
